@@ -73,8 +73,8 @@ inductive Stmt where
   | default_
   /-- `[x =] f(args);` — a direct call as a statement (`EXPRCALL`, under `EXPRASSIGN` and a cast to the type
       of `x` when the result is used): `rt` the return type of `f`, `args` already converted to the
-      parameter types.  It has a meaning only in a program (`Model/CSem3.lean`); `exec` below, the
-      semantics of a single function, gives it none. -/
+      parameter types.  It has a meaning only in a program (`exec` with the list of its functions); for a
+      single function (`runC`: the empty program) it has none. -/
   | call (dst : Option (Nat × Ty)) (rt : Ty) (fn : String) (args : List Expr)
   deriving Repr, Inhabited
 
@@ -137,72 +137,6 @@ def declIdx : Stmt → List Nat
     `case` label may bypass their declarations. -/
 def clear (s : Store) (l : List Nat) : Store := l.foldl (fun s i => s.set i none) s
 
-/-- Big-step execution with fuel (one unit per nesting level / loop iteration). -/
-def exec (cs : Bool) : Nat → Store → Stmt → Option Outcome
-  | 0, _, _ => none
-  | _ + 1, s, .skip => some (.normal s)
-  | _ + 1, s, .decl i _ none => some (.normal (s.set i none))
-  | _ + 1, s, .decl i _ (some e) =>
-    (evalE cs (s.set i none) e).map fun v => .normal (s.set i (some v))
-  | _ + 1, s, .assign i _ e => (evalE cs s e).map fun v => .normal (s.set i (some v))
-  | _ + 1, s, .incdec i t inc =>
-    ((s[i]?).join.bind (incdecVal cs t inc)).map fun v => .normal (s.set i (some v))
-  | _ + 1, s, .expr e => (evalE cs s e).map fun _ => .normal s
-  | _ + 1, s, .ret e => (evalE cs s e).map .ret
-  | n + 1, s, .seq a b =>
-    match exec cs n s a with
-    | some (.normal s') => exec cs n s' b
-    | o => o
-  | n + 1, s, .ite c a =>
-    (evalE cs s c).bind fun v => if v ≠ 0 then exec cs n s a else some (.normal s)
-  | n + 1, s, .itee c a b =>
-    (evalE cs s c).bind fun v => if v ≠ 0 then exec cs n s a else exec cs n s b
-  | n + 1, s, .while_ c b =>
-    (evalE cs s c).bind fun v =>
-      if v = 0 then some (.normal s) else
-      match exec cs n s b with
-      | some (.normal s') => exec cs n s' (.while_ c b)
-      | some (.cont s') => exec cs n s' (.while_ c b)
-      | some (.brk s') => some (.normal s')
-      | o => o
-  | n + 1, s, .dowhile b c =>
-    match exec cs n s b with
-    | some (.normal s') =>
-      (evalE cs s' c).bind fun v => if v ≠ 0 then exec cs n s' (.dowhile b c) else some (.normal s')
-    | some (.cont s') =>
-      (evalE cs s' c).bind fun v => if v ≠ 0 then exec cs n s' (.dowhile b c) else some (.normal s')
-    | some (.brk s') => some (.normal s')
-    | o => o
-  | n + 1, s, .for_ c step b =>
-    ((match c with
-      | some e => evalE cs s e
-      | none => some 1) : Option Int).bind fun v =>
-      if v = 0 then some (.normal s) else
-      match exec cs n s b with
-      | some (.normal s') =>
-        (match exec cs n s' step with
-         | some (.normal s'') => exec cs n s'' (.for_ c step b)
-         | _ => none)
-      | some (.cont s') =>
-        (match exec cs n s' step with
-         | some (.normal s'') => exec cs n s'' (.for_ c step b)
-         | _ => none)
-      | some (.brk s') => some (.normal s')
-      | o => o
-  | _ + 1, s, .break_ => some (.brk s)
-  | _ + 1, s, .continue_ => some (.cont s)
-  | _ + 1, s, .case_ _ => some (.normal s)
-  | _ + 1, s, .default_ => some (.normal s)
-  | _ + 1, _, .call .. => none
-  | n + 1, s, .switch_ e b =>
-    (evalE cs s e).bind fun v =>
-      match pick cs e.ty v b with
-      | none => some (.normal (clear s (declIdx b)))
-      | some b' =>
-        match exec cs n (clear s (declIdx b)) b' with
-        | some (.brk s') => some (.normal s')
-        | o => o
-
 /-- A function of the fragment.  `locals` are the types of the block-scope objects in the order of
     their declarations. -/
 structure Func where
@@ -218,11 +152,99 @@ def Func.vtys (f : Func) : List Ty := f.params ++ f.locals
 /-- The store on entry: the arguments, every local indeterminate. -/
 def initStore (f : Func) (ρ : List Int) : Store := ρ.map some ++ List.replicate f.locals.length none
 
+/-- The function a call names: the first function of the program with that name. -/
+def lookup (P : List Func) (fn : String) : Option Func := P.find? fun g => g.name == fn
+
+/-- The arguments of a call (pure expressions, already converted to the parameter types). -/
+def evalArgs (cs : Bool) (s : Store) : List Expr → Option (List Int)
+  | [] => some []
+  | e :: es => (evalE cs s e).bind fun v => (evalArgs cs s es).map fun vs => v :: vs
+
+/-- Big-step execution with fuel (one unit per nesting level / loop iteration / call) in the program `P`
+    (the functions a call may name; `[]` for a single function: a call then has no meaning).  A call
+    evaluates the arguments in the caller's store, executes the callee's body on a fresh store with
+    fuel one less and, if a variable receives the result, converts the returned value to its type
+    (6.5.16.1p2); flowing off the end of the callee without `return` is undefined here. -/
+def exec (cs : Bool) (P : List Func) : Nat → Store → Stmt → Option Outcome
+  | 0, _, _ => none
+  | _ + 1, s, .skip => some (.normal s)
+  | _ + 1, s, .decl i _ none => some (.normal (s.set i none))
+  | _ + 1, s, .decl i _ (some e) =>
+    (evalE cs (s.set i none) e).map fun v => .normal (s.set i (some v))
+  | _ + 1, s, .assign i _ e => (evalE cs s e).map fun v => .normal (s.set i (some v))
+  | _ + 1, s, .incdec i t inc =>
+    ((s[i]?).join.bind (incdecVal cs t inc)).map fun v => .normal (s.set i (some v))
+  | _ + 1, s, .expr e => (evalE cs s e).map fun _ => .normal s
+  | _ + 1, s, .ret e => (evalE cs s e).map .ret
+  | n + 1, s, .seq a b =>
+    match exec cs P n s a with
+    | some (.normal s') => exec cs P n s' b
+    | o => o
+  | n + 1, s, .ite c a =>
+    (evalE cs s c).bind fun v => if v ≠ 0 then exec cs P n s a else some (.normal s)
+  | n + 1, s, .itee c a b =>
+    (evalE cs s c).bind fun v => if v ≠ 0 then exec cs P n s a else exec cs P n s b
+  | n + 1, s, .while_ c b =>
+    (evalE cs s c).bind fun v =>
+      if v = 0 then some (.normal s) else
+      match exec cs P n s b with
+      | some (.normal s') => exec cs P n s' (.while_ c b)
+      | some (.cont s') => exec cs P n s' (.while_ c b)
+      | some (.brk s') => some (.normal s')
+      | o => o
+  | n + 1, s, .dowhile b c =>
+    match exec cs P n s b with
+    | some (.normal s') =>
+      (evalE cs s' c).bind fun v => if v ≠ 0 then exec cs P n s' (.dowhile b c) else some (.normal s')
+    | some (.cont s') =>
+      (evalE cs s' c).bind fun v => if v ≠ 0 then exec cs P n s' (.dowhile b c) else some (.normal s')
+    | some (.brk s') => some (.normal s')
+    | o => o
+  | n + 1, s, .for_ c step b =>
+    ((match c with
+      | some e => evalE cs s e
+      | none => some 1) : Option Int).bind fun v =>
+      if v = 0 then some (.normal s) else
+      match exec cs P n s b with
+      | some (.normal s') =>
+        (match exec cs P n s' step with
+         | some (.normal s'') => exec cs P n s'' (.for_ c step b)
+         | _ => none)
+      | some (.cont s') =>
+        (match exec cs P n s' step with
+         | some (.normal s'') => exec cs P n s'' (.for_ c step b)
+         | _ => none)
+      | some (.brk s') => some (.normal s')
+      | o => o
+  | _ + 1, s, .break_ => some (.brk s)
+  | _ + 1, s, .continue_ => some (.cont s)
+  | _ + 1, s, .case_ _ => some (.normal s)
+  | _ + 1, s, .default_ => some (.normal s)
+  | n + 1, s, .call dst rt fn args =>
+    match lookup P fn with
+    | none => none
+    | some g =>
+      (evalArgs cs s args).bind fun vs =>
+        match exec cs P n (initStore g vs) g.body with
+        | some (.ret v) =>
+          (match dst with
+           | none => some (.normal s)
+           | some (i, t) => some (.normal (s.set i (some (conv (rt.intTy cs) (t.intTy cs) v)))))
+        | _ => none
+  | n + 1, s, .switch_ e b =>
+    (evalE cs s e).bind fun v =>
+      match pick cs e.ty v b with
+      | none => some (.normal (clear s (declIdx b)))
+      | some b' =>
+        match exec cs P n (clear s (declIdx b)) b' with
+        | some (.brk s') => some (.normal s')
+        | o => o
+
 /-- The value the call returns: `some v` if the body executes a `return` with value `v` within
     `fuel`; flowing off the end of the function without `return` counts as undefined here (its
     value must not be used, 6.9.1p12). -/
 def runC (cs : Bool) (fuel : Nat) (f : Func) (ρ : List Int) : Option Int :=
-  match exec cs fuel (initStore f ρ) f.body with
+  match exec cs [] fuel (initStore f ρ) f.body with
   | some (.ret v) => some v
   | _ => none
 
@@ -338,6 +360,23 @@ def Stmt.wt (vtys : List Ty) (ret : Ty) : Bool → Bool → Nat → Stmt → Opt
   | _, _, nd, .default_ => some nd
   | _, _, nd, .call dst _ _ args =>
     if args.all (fun e => e.wt (vtys.take nd)) = true ∧ dstOK vtys nd dst = true then some nd else none
+
+/-- every call names a function of the program, with arguments of the parameter types and the
+    declared return type -/
+def callsOK (P : List Func) : Stmt → Bool
+  | .skip | .decl .. | .assign .. | .incdec .. | .expr _ | .ret _ | .break_ | .continue_ => true
+  | .seq a b => callsOK P a && callsOK P b
+  | .ite _ a => callsOK P a
+  | .itee _ a b => callsOK P a && callsOK P b
+  | .while_ _ b => callsOK P b
+  | .dowhile b _ => callsOK P b
+  | .for_ _ st b => callsOK P st && callsOK P b
+  | .case_ _ | .default_ => true
+  | .switch_ _ b => callsOK P b
+  | .call _ rt fn args =>
+    match lookup P fn with
+    | some g => g.ret == rt && args.map (·.ty) == g.params
+    | none => false
 
 def Func.wt (f : Func) : Bool :=
   f.body.labelFree && Stmt.wt f.vtys f.ret false false f.params.length f.body == some f.vtys.length
